@@ -38,6 +38,21 @@ def pre_parse(args):
 CRASH = ['ERR', 'WorkerCrash', 0, None, None]
 CRASHED = []          # (function name, repr of the item) of every job that kills its worker even when run alone
 
+RAISED = []           # (function name, exception, repr of the item) of jobs whose function raised instead of returning
+
+def _safe_call(fn, x):
+    try:
+        return fn(x)
+    except Exception as e:      # a job must answer; what it could not handle is reported by the check, not lost with the whole map
+        import traceback
+        return ['ERR', 'HarnessRaised:' + type(e).__name__, 0, traceback.format_exc()[-1500:], None]
+
+def _note_raised(fn, items, results):
+    for x, r in zip(items, results):
+        if isinstance(r, list) and len(r) == 5 and r[0] == 'ERR' and isinstance(r[1], str) and r[1].startswith('HarnessRaised:') and len(RAISED) < 20:
+            RAISED.append((getattr(fn, '__name__', str(fn)), r[1][14:] + ': ' + str(r[3])[-600:], repr(x)[:1500]))
+    return results
+
 def _run_block(fn, block, workers):
     from concurrent.futures.process import BrokenProcessPool
     try:
@@ -56,16 +71,18 @@ def pmap(fn, items, chunk=64, workers=16):
     and a job that kills its worker every time is isolated and answered with CRASH"""
     from concurrent.futures.process import BrokenProcessPool
     items = list(items)
+    import functools
+    safe = functools.partial(_safe_call, fn)
     if len(items) < 200:
-        return [fn(x) for x in items]
+        return _note_raised(fn, items, [safe(x) for x in items])
     try:
         with ProcessPoolExecutor(max_workers=workers) as ex:
-            return list(ex.map(fn, items, chunksize=chunk))
+            return _note_raised(fn, items, list(ex.map(safe, items, chunksize=chunk)))
     except BrokenProcessPool:
         out = []
         for i in range(0, len(items), 512):
-            out += _run_block(fn, items[i:i + 512], workers)
-        return out
+            out += _run_block(safe, items[i:i + 512], workers)
+        return _note_raised(fn, items, out)
 
 # ---------------------------------------------------------------------------------------
 # end-to-end conversion with a canonical, date-free serialisation
@@ -152,6 +169,9 @@ def peg_rule(args):
         return ['OK', p._offset, dump_tree(t)]
     except RecursionError:
         return ['ERR', 'Recursion']
+    except Exception as e:
+        # the recogniser neither accepted nor rejected: it raised (a missing node type, a broken override ...)
+        return ['ERR', 'Raised:' + type(e).__name__]
 
 def peg_api_seq(args):
     """(text, [root, ...]) -> one result per root, as peg_rule, but through the public entry point parse_with_failure on ONE
@@ -171,6 +191,8 @@ def peg_api_seq(args):
             out.append(['FAIL'])
         except RecursionError:
             out.append(['ERR', 'Recursion'])
+        except Exception as e:
+            out.append(['ERR', 'Raised:' + type(e).__name__])
     return out
 
 def collapse_runs(t):
